@@ -908,8 +908,8 @@ func Run(seed int64, tier, outDir string) (*emit.Summary, error) {
 		terms = append(terms, term)
 		// non-trivial: some object left the state it started the phase in
 		moved := false
-		for _, st := range res.events[1:] {
-			if len(st) > 0 {
+		for k, st := range res.events {
+			if k > 0 && len(st) > 0 {
 				moved = true
 			}
 		}
